@@ -11,16 +11,29 @@
 (* NewMessageId; CreateObject into a new file or appended to an existing   *)
 (* one (with AddComponentMetadata for a new file); Rewrite of an existing  *)
 (* object's references (copy back before saving).                          *)
-(* Level A invariants = the clauses of C07: FreshIds, Listed, Closed.      *)
+(* Data files (images): the package metadata registers them (datas: data   *)
+(* id -> file under Data/), objects point at them with data references,    *)
+(* the files are members of the package.  AddImage is add_cell_style with  *)
+(* a background image: next data id, register, store the file, create the  *)
+(* style object that refers to it.                                         *)
+(* Level A invariants = the clauses of C07: FreshIds, Listed, Closed,      *)
+(* DataClosed (a data reference names a registered data item whose file    *)
+(* is in the package).                                                     *)
 (***************************************************************************)
 EXTENDS Integers, Sequences, FiniteSets, TLC
 CONSTANTS SrcIds, SrcFiles, Dangling, MaxNew, Bug
-VARIABLES objs, maxId, lastId, components, created, rewritten, ncreated
-vars == <<objs, maxId, lastId, components, created, rewritten, ncreated>>
+VARIABLES objs, maxId, lastId, components, created, rewritten, ncreated,
+          datas,     \* data ids registered in the package metadata
+          blobs,     \* data ids whose file is a member of the package
+          dref       \* <<object id, data id>>: data references of created objects
+vars == <<objs, maxId, lastId, components, created, rewritten, ncreated, datas, blobs, dref>>
+SrcDatas == {1, 2}
+SetMax(S) == CHOOSE m \in S : \A x \in S : x <= m
 Ids == DOMAIN objs
 NewFileOf(id) == 100 + id
 Init == /\ objs = [i \in SrcIds |-> [file |-> CHOOSE f \in SrcFiles : TRUE, refs |-> IF i = 1 THEN Dangling ELSE {}]]
         /\ maxId = 10 /\ lastId = 10 /\ components = SrcFiles /\ created = {} /\ rewritten = {} /\ ncreated = 0
+        /\ datas = SrcDatas /\ blobs = SrcDatas /\ dref = {}
 Alloc == IF Bug = "ReuseId" /\ ncreated = 1 THEN maxId ELSE maxId + 1
 Create(newFile, refs) ==
   /\ ncreated < MaxNew
@@ -29,15 +42,31 @@ Create(newFile, refs) ==
      /\ objs' = [i \in Ids \cup {id} |-> IF i = id THEN [file |-> f, refs |-> refs] ELSE objs[i]]
      /\ maxId' = id /\ lastId' = (IF Bug = "StaleHighWater" THEN lastId ELSE id)
      /\ components' = IF newFile /\ Bug # "ForgetComponent" THEN components \cup {f} ELSE components
-     /\ created' = created \cup {id} /\ ncreated' = ncreated + 1 /\ UNCHANGED rewritten
+     /\ created' = created \cup {id} /\ ncreated' = ncreated + 1 /\ UNCHANGED <<rewritten, datas, blobs, dref>>
 Rewrite(id, refs) == /\ id \in Ids /\ objs' = [objs EXCEPT ![id].refs = refs]
-                     /\ rewritten' = rewritten \cup {id} /\ UNCHANGED <<maxId, lastId, components, created, ncreated>>
+                     /\ rewritten' = rewritten \cup {id} /\ UNCHANGED <<maxId, lastId, components, created, ncreated, datas, blobs, dref>>
+\* a cell style with a background image: the image is registered (unless its bytes are known: reuse), its file stored, and the new
+\* style object refers to it
+AddImage(reuse) ==
+  /\ ncreated < MaxNew /\ (reuse => datas # SrcDatas)
+  /\ LET id == Alloc
+         d == IF reuse THEN SetMax(datas) ELSE SetMax(datas) + 1
+         f == CHOOSE f \in {objs[i].file : i \in Ids} : TRUE IN
+     /\ objs' = [i \in Ids \cup {id} |-> IF i = id THEN [file |-> f, refs |-> {}] ELSE objs[i]]
+     /\ maxId' = id /\ lastId' = id /\ created' = created \cup {id} /\ ncreated' = ncreated + 1
+     /\ datas' = IF Bug = "DataNotRegistered" THEN datas ELSE datas \cup {d}
+     /\ blobs' = IF Bug = "DataFileNotStored" THEN blobs ELSE blobs \cup {d}
+     /\ dref' = dref \cup {<<id, d>>}
+     /\ UNCHANGED <<components, rewritten>>
 Targets == Ids \cup Dangling \cup {Alloc} \cup (IF Bug = "DanglingRef" THEN {999} ELSE {})
 Next == \/ \E nf \in BOOLEAN, r \in SUBSET (Ids \cup Dangling \cup (IF Bug = "DanglingRef" THEN {999} ELSE {})) : Cardinality(r) <= 1 /\ Create(nf, r)
         \/ \E id \in Ids, r \in SUBSET (Ids \cup Dangling) : Cardinality(r) <= 1 /\ Cardinality(rewritten) < 1 /\ Rewrite(id, r)
+        \/ \E reuse \in BOOLEAN : AddImage(reuse)
 Spec == Init /\ [][Next]_vars
 FreshIds == created \cap SrcIds = {} /\ \A i \in created : i <= lastId
 DistinctIds == Cardinality(created) = ncreated
 Listed == \A i \in created : objs[i].file \notin SrcFiles => objs[i].file \in components
 Closed == \A i \in created \cup rewritten : objs[i].refs \subseteq Ids \cup Dangling
+DataClosed == /\ \A p \in dref : p[2] \in datas
+              /\ \A d \in datas \ SrcDatas : d \in blobs
 ====
